@@ -85,6 +85,14 @@ PROPS["C11"] = {
     "assumptions": ["Coh and size <= usize::MAX for both operands (C01)"],
 }
 
+PROPS["C15"] = {
+    "module": "Matreex.Props.C15", "harness": "C15",
+    "technique": "Lean 4 theorems: the regenerated Index::from_flattened pairs memory position k with the unique in-bounds coordinate whose checked access resolves to k (bijection), no division by zero; memory order = row-by-row / column-by-column; correspondence incl. parallel forms and large sizes",
+    "trusted": ["slice iterators, enumerate, map and their DoubleEnded/ExactSize behaviour modelled as consumption of a list from either end",
+                "parallel variants: compared as collected sequences against the same model (rayon's indexed collect preserves order); schedule-independence is C16's subject"],
+    "assumptions": ["Coh and size <= usize::MAX (C01)"],
+}
+
 LEVEL_TEXT = ("Machine-checked Lean 4 theorems, for all inputs the property quantifies over, about a model whose integer core is "
               "regenerated from /repo/src on every run and whose remaining structure is tied to the implementation by a differential "
               "correspondence run (same operation lines on crate and model) plus the property's own oracle on the implementation.")
